@@ -30,6 +30,7 @@ import (
 	"go.miragespace.co/specter/spec/chord"
 	"go.miragespace.co/specter/spec/mocks"
 	"go.miragespace.co/specter/spec/protocol"
+	"go.miragespace.co/specter/spec/rpc"
 	"go.miragespace.co/specter/spec/rtt"
 
 	"go.uber.org/zap"
@@ -128,6 +129,9 @@ type Lab struct {
 
 	storeLog storeLog
 
+	mnet    *memNet
+	clients map[uint64]rpc.ChordClient
+
 	mcMu   sync.Mutex
 	MCalls []MembershipCall
 }
@@ -150,6 +154,7 @@ func New(opt Options) *Lab {
 		rng:     rand.New(rand.NewSource(opt.Seed)),
 		cbs:     map[string][]func(string, uint64){},
 		hops:    map[int64]int{},
+		clients: map[uint64]rpc.ChordClient{},
 	}
 	rchord.VerifSetHook(l.hook)
 	return l
@@ -158,6 +163,9 @@ func New(opt Options) *Lab {
 // Close removes the hook; nodes must have been stopped by the caller.
 func (l *Lab) Close() {
 	rchord.VerifSetHook(nil)
+	if l.mnet != nil {
+		l.mnet.stop()
+	}
 	l.mu.Lock()
 	for _, m := range l.members {
 		if m.closeKV != nil {
@@ -286,16 +294,28 @@ func (l *Lab) Spawn(id uint64, be Backend) (*Member, error) {
 	if l.opt.RecordStores {
 		kv = &recKV{KVProvider: kv, node: id, log: &l.storeLog}
 	}
+	ident := &protocol.Node{Id: id, Address: fmt.Sprintf("node-%d", id)}
+	var cc rpc.ChordClient = new(mocks.ChordClient)
+	var attach func(*rchord.LocalNode)
+	if l.opt.Mode == RealRPC {
+		cc, attach = l.realRPCClient(ident)
+		l.mu.Lock()
+		l.clients[id] = cc
+		l.mu.Unlock()
+	}
 	m.Node = rchord.NewLocalNode(rchord.NodeConfig{
 		KVProvider:               kv,
-		ChordClient:              new(mocks.ChordClient),
+		ChordClient:              cc,
 		BaseLogger:               zap.NewNop(),
-		Identity:                 &protocol.Node{Id: id, Address: fmt.Sprintf("node-%d", id)},
+		Identity:                 ident,
 		NodesRTT:                 noopRTT{},
 		StabilizeInterval:        l.opt.Stabilize,
 		FixFingerInterval:        l.opt.FixFinger,
 		PredecessorCheckInterval: l.opt.PredecessorCheck,
 	})
+	if attach != nil {
+		attach(m.Node)
+	}
 	l.mu.Lock()
 	l.members[id] = m
 	l.mu.Unlock()
@@ -323,6 +343,9 @@ func (l *Lab) All() []*Member {
 func (l *Lab) Ref(m *Member) chord.VNode {
 	if l.opt.Mode == Direct {
 		return m.Node
+	}
+	if l.opt.Mode == RealRPC {
+		return l.remoteRef(m)
 	}
 	return &netVNode{lab: l, target: m.ID, ident: m.Node.Identity()}
 }
